@@ -183,11 +183,17 @@ type rewriter struct {
 	needVs bool
 
 	// marks from the analysis pass
-	selWrite   map[*ast.SelectorExpr]bool
-	selSkip    map[*ast.SelectorExpr]bool
-	selSite    map[*ast.SelectorExpr]string
-	idxWrite   map[*ast.IndexExpr]bool
-	idxRead    map[*ast.IndexExpr]bool
+	selWrite map[*ast.SelectorExpr]bool
+	selSkip  map[*ast.SelectorExpr]bool
+	selSite  map[*ast.SelectorExpr]string
+	idxWrite map[*ast.IndexExpr]bool
+	idxRead  map[*ast.IndexExpr]bool
+	// slice elements: x[i] read / written, &x[i] (skipped), append calls, range loops over slices
+	elemWrite  map[*ast.IndexExpr]bool
+	elemSkip   map[*ast.IndexExpr]bool
+	elemSite   map[*ast.IndexExpr]string
+	appendCall map[*ast.CallExpr]string
+	rangeSlice map[*ast.RangeStmt]string
 	callMapRW  map[*ast.CallExpr]string // "r" or "w": len/delete on a map
 	rangeMap   map[*ast.RangeStmt]bool
 	mapSite    map[ast.Node]string
@@ -305,6 +311,52 @@ func unparen(e ast.Expr) ast.Expr {
 	}
 }
 
+func (r *rewriter) isSlice(e ast.Expr) bool {
+	tv, ok := r.info.Types[e]
+	if !ok || tv.Type == nil {
+		return false
+	}
+	_, is := tv.Type.Underlying().(*types.Slice)
+	return is
+}
+
+// for i, v := range s { B }  =>  { _vs := s; for i, v := range _vs { _vsched.R(&_vs[i], site); B } }
+// (only when an element value is read by the loop)
+func (r *rewriter) rangeSliceStmt(x *ast.RangeStmt, site string) ast.Stmt {
+	isBlank := func(e ast.Expr) bool {
+		if e == nil {
+			return true
+		}
+		id, ok := e.(*ast.Ident)
+		return ok && id.Name == "_"
+	}
+	if isBlank(x.Value) {
+		return nil
+	}
+	vs := r.name("s")
+	var key ast.Expr
+	if isBlank(x.Key) {
+		if x.Tok != token.DEFINE {
+			return nil // for _, v = range s with existing variables: left alone
+		}
+		k := r.name("i")
+		x.Key = ast.NewIdent(k)
+		key = ast.NewIdent(k)
+	} else {
+		id, ok := x.Key.(*ast.Ident)
+		if !ok {
+			return nil
+		}
+		key = ast.NewIdent(id.Name)
+	}
+	hoist := &ast.AssignStmt{Lhs: []ast.Expr{ast.NewIdent(vs)}, Tok: token.DEFINE, Rhs: []ast.Expr{x.X}}
+	x.X = ast.NewIdent(vs)
+	rd := &ast.ExprStmt{X: &ast.CallExpr{Fun: r.vs("R"), Args: []ast.Expr{
+		&ast.UnaryExpr{Op: token.AND, X: &ast.IndexExpr{X: ast.NewIdent(vs), Index: key}}, lit(site)}}}
+	x.Body.List = append([]ast.Stmt{rd}, x.Body.List...)
+	return &ast.BlockStmt{List: []ast.Stmt{hoist, x}}
+}
+
 func (r *rewriter) isMap(e ast.Expr) bool {
 	tv, ok := r.info.Types[e]
 	if !ok || tv.Type == nil {
@@ -336,6 +388,11 @@ func (r *rewriter) analyse() {
 	r.selSite = map[*ast.SelectorExpr]string{}
 	r.idxWrite = map[*ast.IndexExpr]bool{}
 	r.idxRead = map[*ast.IndexExpr]bool{}
+	r.elemWrite = map[*ast.IndexExpr]bool{}
+	r.elemSkip = map[*ast.IndexExpr]bool{}
+	r.elemSite = map[*ast.IndexExpr]string{}
+	r.appendCall = map[*ast.CallExpr]string{}
+	r.rangeSlice = map[*ast.RangeStmt]string{}
 	r.callMapRW = map[*ast.CallExpr]string{}
 	r.rangeMap = map[*ast.RangeStmt]bool{}
 	r.mapSite = map[ast.Node]string{}
@@ -365,6 +422,8 @@ func (r *rewriter) markLHS(e ast.Expr) {
 	case *ast.IndexExpr:
 		if r.isMap(x.X) {
 			r.idxWrite[x] = true
+		} else if r.isSlice(x.X) {
+			r.elemWrite[x] = true
 		}
 	}
 }
@@ -382,6 +441,9 @@ func (r *rewriter) analyseNode(root ast.Node, fn string) {
 			if x.Op == token.AND {
 				if s, ok := unparen(x.X).(*ast.SelectorExpr); ok {
 					r.selSkip[s] = true
+				}
+				if ix, ok := unparen(x.X).(*ast.IndexExpr); ok {
+					r.elemSkip[ix] = true
 				}
 			}
 		case *ast.SelectStmt:
@@ -413,6 +475,8 @@ func (r *rewriter) analyseNode(root ast.Node, fn string) {
 			tv := r.info.Types[x.X]
 			if tv.Type != nil {
 				switch tv.Type.Underlying().(type) {
+				case *types.Slice:
+					r.rangeSlice[x] = r.exprName(x.X) + "[range]@" + fn
 				case *types.Map:
 					r.rangeMap[x] = true
 					r.mapSite[x] = "range@" + fn
@@ -426,6 +490,10 @@ func (r *rewriter) analyseNode(root ast.Node, fn string) {
 					switch id.Name {
 					case "close":
 						r.builtinCls[x] = true
+					case "append":
+						if len(x.Args) >= 2 && r.isSlice(x.Args[0]) && !(x.Ellipsis != token.NoPos && !r.isSlice(x.Args[1])) {
+							r.appendCall[x] = r.exprName(x.Args[0]) + "[append]@" + fn
+						}
 					case "len":
 						if len(x.Args) == 1 && r.isMap(x.Args[0]) {
 							r.callMapRW[x] = "r"
@@ -445,6 +513,8 @@ func (r *rewriter) analyseNode(root ast.Node, fn string) {
 					r.idxRead[x] = true
 				}
 				r.mapSite[x] = r.exprName(x.X) + "[]@" + fn
+			} else if r.isSlice(x.X) {
+				r.elemSite[x] = r.exprName(x.X) + "[i]@" + fn
 			}
 		case *ast.SelectorExpr:
 			sel := r.info.Selections[x]
@@ -502,6 +572,26 @@ func (r *rewriter) rewriteBody() {
 			if r.builtinCls[x] {
 				x.Fun = r.vs("Close")
 			}
+			if site, ok := r.appendCall[x]; ok && r.access {
+				// append(s, a, b)  =>  append(_vsched.AppendW(s, 2, site), a, b)
+				// append(s, t...)  =>  append(_vsched.AppendW(s, len(t), site), t...)   (t an identifier or selector)
+				var n ast.Expr = &ast.BasicLit{Kind: token.INT, Value: strconv.Itoa(len(x.Args) - 1)}
+				okToWrap := true
+				if x.Ellipsis != token.NoPos {
+					switch unparen(x.Args[1]).(type) {
+					case *ast.Ident, *ast.SelectorExpr:
+						n = &ast.CallExpr{Fun: ast.NewIdent("len"), Args: []ast.Expr{x.Args[1]}}
+					default:
+						okToWrap = false
+					}
+				}
+				if _, fresh := unparen(x.Args[0]).(*ast.CompositeLit); fresh {
+					okToWrap = false // a fresh backing array shares nothing
+				}
+				if okToWrap {
+					x.Args[0] = &ast.CallExpr{Fun: r.vs("AppendW"), Args: []ast.Expr{x.Args[0], n, lit(site)}}
+				}
+			}
 			if rw, ok := r.callMapRW[x]; ok && r.access {
 				fn := "MR"
 				if rw == "w" {
@@ -529,6 +619,13 @@ func (r *rewriter) rewriteBody() {
 			if r.rangeMap[x] {
 				r.rangeStmt(x)
 			}
+			if site, ok := r.rangeSlice[x]; ok && r.access {
+				if _, labeled := c.Parent().(*ast.LabeledStmt); !labeled {
+					if blk := r.rangeSliceStmt(x, site); blk != nil {
+						c.Replace(blk)
+					}
+				}
+			}
 		case *ast.IndexExpr:
 			if !r.access {
 				break
@@ -537,6 +634,13 @@ func (r *rewriter) rewriteBody() {
 				x.X = &ast.CallExpr{Fun: r.vs("MW"), Args: []ast.Expr{x.X, lit(r.mapSite[x])}}
 			} else if r.idxRead[x] {
 				x.X = &ast.CallExpr{Fun: r.vs("MR"), Args: []ast.Expr{x.X, lit(r.mapSite[x])}}
+			} else if site, ok := r.elemSite[x]; ok && !r.elemSkip[x] {
+				fn := "R"
+				if r.elemWrite[x] {
+					fn = "W"
+				}
+				call := &ast.CallExpr{Fun: r.vs(fn), Args: []ast.Expr{&ast.UnaryExpr{Op: token.AND, X: x}, lit(site)}}
+				c.Replace(&ast.ParenExpr{X: &ast.StarExpr{X: call}})
 			}
 		case *ast.SelectorExpr:
 			if !r.access {
